@@ -106,3 +106,28 @@ def _pullrank(clause, replay, ctx):
     dependent method that is a type-level candidate but not applicable to the
     values.  Only outcome clauses (never runs_iff_holds / bound_guard)."""
     return ctx.get("kf") == "1" and clause.startswith("C10:value_outcome.")
+
+
+@matcher("latemark")
+def _latemark(clause, replay, ctx):
+    """extend_super on a same-named definition that is not the first one of
+    its class body (first unmarked, a later one marked): the probed class or a
+    class it derives from has that shape."""
+    hosts, h = ctx.get("hosts"), ctx.get("host")
+    if not hosts or not h:
+        return False
+
+    def late(H):
+        b = H["body"]
+        return len(b) >= 2 and not b[0]["marked"] and any(d["marked"] for d in b[1:])
+
+    seen, todo = set(), [h]
+    while todo:
+        k = todo.pop()
+        if k in seen:
+            continue
+        seen.add(k)
+        if late(hosts[k - 1]):
+            return True
+        todo += hosts[k - 1]["bases"]
+    return False
